@@ -3003,3 +3003,36 @@ def spec_styled_wrap_trim(fns, consts):
 
 
 SPECS["C20"].append(spec_styled_wrap_trim)
+
+
+# ------------------------------------------------------------------ C06/C01: error-ignoring recovery covers every command-line phase
+
+def spec_ignore_errors_recovery(fns, consts):
+    """Parser::get_matches_with: under ignore_errors an error raised while the command line is processed -
+    by `parse` OR by the final `resolve_pending` (the last option's values are validated there) - goes
+    through the recovery closure that still applies the environment and the defaults, so that the
+    matches handed back carry every argument's default: on every path, the result of resolve_pending
+    reaches the same `map_err(recovery)` as the result of parse before it can be returned as an error."""
+    con = contracts.Contracts(fns, default_pure=True)
+    ctx = symex.Ctx(consts, con)
+    fn = _find(fns, "parser/parser.rs", "get_matches_with")
+    ex = symex.Exec(ctx, fn, [("opq", "self"), ("opq", "matcher"), ("opq", "raw_args"), ("opq", "cursor")]).run()
+    obs = []
+    n = 0
+    for (pc, val), ca in zip(ex.returns, ex.return_callargs):
+        cn = [c[0] for c in ca]
+        rp = [c for c in ca if c[0].endswith("::resolve_pending")]
+        if not rp:
+            continue
+        n += 1
+        maps = [c for c in ca if re.search(r"^(std::result::)?Result::<.*>::map_err::<.*\{closure@clap_builder/src/parser/parser\.rs", c[0])]
+        ok = any(rp[0][2] == c[1][0] or rp[0][2] in c[1][0] for c in maps)
+        obs.append({"fn": fn.name, "block": "ret", "kind": "spec", "target": "ignore_errors_recovery",
+                    "msg": "an error of resolve_pending goes through the error-ignoring recovery (env, defaults) like an error of parse", "pc": list(pc), "neg": "false" if ok else "true"})
+    if n == 0:
+        obs.append({"fn": fn.name, "block": "shape", "kind": "spec", "target": "ignore_errors_recovery", "msg": "get_matches_with: no path calls resolve_pending", "pc": [], "neg": "true"})
+    return ctx, obs, [_enc(fn, ex, n)], con
+
+
+SPECS["C06"].append(spec_ignore_errors_recovery)
+SPECS["C01"].append(spec_ignore_errors_recovery)
